@@ -91,6 +91,29 @@ Proof.
     apply andb_true_iff. split; [apply exe_conds_sel; assumption|apply IH; assumption].
 Qed.
 
+(** the same without the directive conjunct ([sel_conds_gen false]): no hypothesis on the variables *)
+Fixpoint exe_condsg_sel ES E (s : Syn.Ast.selection) :
+  Forall (fun c => ExeA.ArgSpec.cond_ok ES c = true) (syn_conds_sel s) ->
+  ExeA.ArgSpec.sel_conds_gen ES E false (e_sel s) = true
+with exe_condsg_ss ES E (ss : Syn.Ast.selset) :
+  Forall (fun c => ExeA.ArgSpec.cond_ok ES c = true) (syn_conds_ss ss) ->
+  forallb (ExeA.ArgSpec.sel_conds_gen ES E false) (e_ss ss) = true.
+Proof.
+  - destruct s as [alias n args dirs [sub|]|n dirs e|cond dirs sub e]; intros Hc.
+    + cbn [e_sel ExeA.ArgSpec.sel_conds_gen andb]. apply exe_condsg_ss; assumption.
+    + reflexivity.
+    + reflexivity.
+    + cbn [e_sel ExeA.ArgSpec.sel_conds_gen andb].
+      cbn [syn_conds_sel] in Hc. apply Forall_app in Hc as [Hc1 Hc2].
+      apply andb_true_iff. split.
+      * destruct cond as [c|]; [|reflexivity]. cbn [option_map]. inversion Hc1; assumption.
+      * apply exe_condsg_ss; assumption.
+  - destruct ss as [sels o c]. cbn [e_ss syn_conds_ss]. rewrite syn_conds_go.
+    induction sels as [|x r IH]; intros Hc; [reflexivity|].
+    cbn [map flat_map forallb] in *. apply Forall_app in Hc as [Hc1 Hc2].
+    apply andb_true_iff. split; [apply exe_condsg_sel; assumption|apply IH; assumption].
+Qed.
+
 (** ** agreement of the encodings carries "composite" over *)
 Lemma exe_assoc_in {A} k (l : list (ExeA.ArgData.name * A)) v :
   ExeA.ArgData.assoc k l = Some v -> In (k, v) l.
@@ -225,6 +248,50 @@ Proof.
   - apply frags_conds_ok; assumption.
 Qed.
 
+Lemma frags_condsg_ok ES E d :
+  (forall x, In x d -> Forall (fun c => ExeA.ArgSpec.cond_ok ES c = true) (syn_def_conds x)) ->
+  forallb (fun f => ExeA.ArgSpec.cond_ok ES (ExeA.ArgData.fr_cond f)
+                    && forallb (ExeA.ArgSpec.sel_conds_gen ES E false) (ExeA.ArgData.fr_sels f)) (e_frags d) = true.
+Proof.
+  induction d as [|x d IH]; intros Hc; [reflexivity|].
+  unfold e_frags in *. cbn [flat_map] in *.
+  destruct x as [ot n vars dirs sub|kw n cond dirs sub].
+  - cbn [app] in *. apply IH. intros y Hy; apply Hc; right; exact Hy.
+  - cbn [app flat_map forallb ExeA.ArgData.fr_sels ExeA.ArgData.fr_cond] in *.
+    pose proof (Hc _ (or_introl eq_refl)) as Hx. cbn [syn_def_conds] in Hx. inversion Hx as [|c0 l0 Hc0 Hl0]; subst.
+    rewrite Hc0. cbn [andb]. rewrite (exe_condsg_ss ES E sub Hl0). cbn [andb].
+    apply IH. intros y Hy; apply Hc; right; exact Hy.
+Qed.
+
+(** the type conditions alone, for ALL variable values: C01's [conds_gen _ _ _ false] *)
+Theorem accepted_conds_gen pi VS F ES bs d opname o vv E :
+  Vld.ProofsCommon.order_ok pi -> schemas_agree VS ES = true ->
+  parse_and_validate_order pi VS F bs = FAccepted d ->
+  ExeA.ArgModel.get_operation (exe_of_syn d) opname = ExeA.ArgModel.GOp o ->
+  ExeA.ArgSpec.conds_gen ES (ExeA.ArgData.doc_of (exe_of_syn d) o vv) E false = true.
+Proof.
+  intros Hpi Ha Hacc Hg.
+  assert (Hparse : Syn.FrontEnd.parse_document_bytes bs = Syn.ParserModel.Out (Some d) []).
+  { destruct (front_cases pi Hpi VS F bs) as [(e & es & t & H & _)|[(d' & e & es & H & _)|(d' & H & Hp & _)]];
+      rewrite Hacc in H; try discriminate. inversion H; subst d'. exact Hp. }
+  assert (Hv : validate_doc pi VS F d = Vld.Ast.Done []).
+  { destruct (front_cases pi Hpi VS F bs) as [(e & es & t & H & _)|[(d' & e & es & H & _)|(d' & H & _ & Hv)]];
+      rewrite Hacc in H; try discriminate. inversion H; subst d'. exact Hv. }
+  pose proof (accepted_type_conditions pi VS F d Hpi (parsed_field_positions_distinct bs d [] Hparse) Hv) as Htc. rewrite Forall_forall in Htc.
+  assert (Hok : forall x, In x d -> Forall (fun c => ExeA.ArgSpec.cond_ok ES c = true) (syn_def_conds x)).
+  { intros x Hx. apply Forall_forall. intros c Hc.
+    destruct (Htc c (type_conditions_incl d x c Hx Hc)) as (b & Hb & Hcomp).
+    exact (cond_ok_of_agree VS F ES c b Ha Hb Hcomp). }
+  destruct (selected_operation d opname o Hg) as (d1 & d2 & ot & n & vars & dirs & sub & Hd & Hs).
+  unfold ExeA.ArgSpec.conds_gen.
+  cbn [ExeA.ArgData.doc_of ExeA.ArgData.op_sels ExeA.ArgData.frags exe_of_syn ExeA.ArgData.r_frags].
+  apply andb_true_iff. split.
+  - rewrite Hs in *. apply exe_condsg_ss.
+    assert (Hin : In (Syn.Ast.DOp ot n vars dirs sub) d) by (subst d; apply in_or_app; right; left; reflexivity).
+    exact (Hok _ Hin).
+  - apply frags_condsg_ok; assumption.
+Qed.
+
 (** [cond_ok] is exactly "doesFragmentTypeApply does not panic" *)
 Lemma cond_ok_no_panic ES c ot :
   ExeA.ArgSpec.cond_ok ES c = true -> ExeA.ArgModel.type_applies ES ot c <> ExeA.ArgModel.ApPanic.
@@ -250,25 +317,24 @@ Definition validate_establishes_typing pi VS F ES : Prop :=
     ExeA.ArgModel.get_operation (exe_of_syn d) opname = ExeA.ArgModel.GOp o ->
     let D := ExeA.ArgData.doc_of (exe_of_syn d) o vv in
     let E := ExeA.ArgArgs.env_of_vars vv in
-    ExeA.ArgHyps.dirs_evaluable D E = true -> doc_typed ES D E = true.
+    doc_typed ES D E = true.
 
 Theorem doc_ok_from_typing pi VS F ES :
   Vld.ProofsCommon.order_ok pi -> schemas_agree VS ES = true ->
   validate_establishes_typing pi VS F ES -> validate_establishes_doc_ok pi VS F ES.
 Proof.
-  intros Hpi Ha Ht bs d opname o vv Hacc Hg D E Hev. subst D E.
-  unfold ExeA.ArgSpec.doc_ok. rewrite (accepted_conds_ok pi VS F ES bs d opname o vv _ Hpi Ha Hacc Hg Hev).
-  cbn [andb]. exact (Ht bs d opname o vv Hacc Hg Hev).
+  intros Hpi Ha Ht bs d opname o vv Hacc Hg D E. subst D E.
+  unfold ExeA.ArgSpec.doc_ok_nodirs. rewrite (accepted_conds_gen pi VS F ES bs d opname o vv _ Hpi Ha Hacc Hg).
+  cbn [andb]. exact (Ht bs d opname o vv Hacc Hg).
 Qed.
 
 Theorem pipeline_response_if_typing pi VS F ES bs opname raw W :
   Vld.ProofsCommon.order_ok pi ->
   schema_accepted ES = true -> schemas_agree VS ES = true ->
   validate_establishes_typing pi VS F ES -> text_positions_small bs ->
-  request_evaluable pi VS F ES bs opname raw ->
   is_response (pipeline_order pi VS F ES bs opname raw W) = true.
 Proof.
-  intros Hpi Hn Ha Ht Hp Hev.
+  intros Hpi Hn Ha Ht Hp.
   apply (pipeline_response_if_obligations pi Hpi VS F ES bs opname raw W Hn); try assumption.
   apply doc_ok_from_typing; assumption.
 Qed.
